@@ -337,6 +337,8 @@ impl Property for C17 {
     fn strata(&self, tier: Tier) -> Vec<Stratum> {
         vec![
             Stratum::random("programs", tier.pick(6_000, 150_000), tier.pick(384, 768)),
+            // whole groups of definitions in two versions (two versions of a crate in one metadata)
+            Stratum::random("group_versions", tier.pick(4_000, 100_000), tier.pick(384, 768)),
             Stratum::random("polkadot_restrictions", tier.pick(60, 1_500), 96),
         ]
     }
@@ -346,10 +348,11 @@ impl Property for C17 {
         };
         let mut t = Tape::new(bytes);
         match stratum {
-            "programs" => {
+            "programs" | "group_versions" => {
                 let mut opts = GenOpts::full();
                 opts.lookalike = false;
                 opts.bits = true;
+                opts.force_group_version = stratum == "group_versions";
                 let Some(case) = make_case(&mut t, &opts) else {
                     stats.count("discard_too_large", 1);
                     return Ok(());
@@ -368,6 +371,11 @@ impl Property for C17 {
                 if case.gen.labels.contains("two_versions") {
                     spec.docs = false;
                     stats.label("two_versions_docs_off");
+                }
+                for l in ["near_miss_version", "near_miss_group_version", "near_miss_group_of_2_or_more", "recursion", "bit_store_or_order_param", "qualified_type_names", "compact_unit"] {
+                    if case.gen.labels.contains(l) {
+                        stats.label(l);
+                    }
                 }
                 let text = case.gen.prog.to_text();
                 let multi_inst = case.low.insts.len() > case.gen.prog.defs.len()
